@@ -32,6 +32,9 @@ pub enum L {
     PingOwn,
     /// a command message whose handler asks for the actor's own restart (Context::restart)
     CtxRestart,
+    /// a command message whose handler posts a letter to its own actor (forcing / waiting path)
+    SelfNote,
+    SelfNoteWait,
 }
 
 pub const WAITING: [L; 5] = [L::SendAddr, L::SendSnd, L::CallCal, L::SendWSnd, L::CallWCal];
@@ -56,6 +59,8 @@ pub fn to_op(l: L, id: u32) -> Op {
         L::Restart => Op::Restart(H::Addr(0)),
         L::PingOwn => Op::Ping(H::Own(0)),
         L::CtxRestart => Op::Cmd(H::Addr(0), id, crate::world::Action::Restart),
+        L::SelfNote => Op::Cmd(H::Addr(0), id, crate::world::Action::SelfNote { id: id + 5000, force: true }),
+        L::SelfNoteWait => Op::Cmd(H::Addr(0), id, crate::world::Action::SelfNote { id: id + 5000, force: false }),
     }
 }
 
@@ -140,6 +145,30 @@ pub fn oracle(s: &ProgScene<X>, t: &Trace) -> Vec<Violation> {
                         letter: format!("{op:?}").split('(').next().unwrap_or("").to_string() + &format!("{:?}", match op { Op::Send(h, _) | Op::Call(h, _) | Op::ForceSend(h, _) => *h, _ => H::Addr(0) }).split('(').next().unwrap_or("").to_string(),
                     });
                 }
+            }
+        }
+    }
+    // letters a handler posts to its own actor are submissions too: accepted at that instant,
+    // they keep their place like anybody else's - and, all of this happening before the owner's
+    // stop, they are handled, once, after the handler that posted them has returned
+    for (i, e) in t.log.iter().enumerate() {
+        if let crate::world::Ev::Ctx { a: 0, op: crate::world::CtxOp::SelfSend(id), ok } = e.ev {
+            crate::check::oblige("self-sent-letters");
+            let enter = an.enter_of_msg(0, id).first().map(|e| e.idx);
+            subs.push(Sub { id, begin: i, end: Some(i), ok, enter, letter: "SelfNote".into() });
+            if ok && enter.is_none() && t.res.end == crate::vexec::EndReason::Quiescent {
+                out.push(Violation {
+                    clause: "fifo-order",
+                    key: format!("C01/self-sent-letter-lost/mailbox={mb}"),
+                    detail: format!("a handler posted message {id} to its own actor (accepted, well before the owner's stop) and it was never handled"),
+                });
+            }
+            if !ok {
+                out.push(Violation {
+                    clause: "fifo-order",
+                    key: format!("C01/self-send-refused/mailbox={mb}"),
+                    detail: format!("a handler of the running actor could not post message {id} to its own actor"),
+                });
             }
         }
     }
@@ -469,6 +498,21 @@ fn plain_cases(tier: Tier) -> Vec<Case> {
             }
         }
     }
+    // handlers that post letters to their own actor
+    for &mb in &mailboxes {
+        for &x in &around {
+            for sn in [L::SelfNote, L::SelfNoteWait] {
+                if sn == L::SelfNoteWait && mb != Mailbox::U {
+                    continue;
+                }
+                v.push(make_case(&[vec![sn, x, L::CallAddr]], mb, 0, None));
+                v.push(make_case(&[vec![x, sn, L::CallCal]], mb, 0, None));
+                v.push(make_case(&[vec![sn, sn, x]], mb, 0, None));
+                v.push(make_case(&[vec![sn, x], vec![L::SendSnd, L::CallAddr]], mb, 0, None));
+                v.push(make_case(&[vec![x, sn], vec![sn]], mb, 1, None));
+            }
+        }
+    }
     // four operations: one representative per (path x erasure) class
     let reps = [L::SendAddr, L::CallCal, L::SendWSnd, L::CallAddr, L::ForceWSnd];
     let mbs4: &[Mailbox] = if tier == Tier::Quick { &[Mailbox::B(0), Mailbox::B(1)] } else { &mailboxes };
@@ -562,7 +606,7 @@ pub fn property() -> Property {
     Property {
         id: "C01",
         cases,
-        clauses: &["handlers-sequential", "at-most-once", "fifo-order", "state-is-fold"],
+        clauses: &["handlers-sequential", "at-most-once", "fifo-order", "state-is-fold", "self-sent-letters"],
         full_rerun_check: true,
         assumptions: &["the final state is obtained by the owner: after a virtual tick (everything submitted has been accepted) it calls consume(), i.e. stop + join"],
     }
